@@ -307,6 +307,7 @@ class ExprModule:
             lines.append("        c = v")
             lines.append("    return f, (lambda x, y: {}), (lambda x, y: {}), set_c".format(txt, render(tree, rec=True)))
             lines.append("f{0}, n{0}, r{0}, s{0} = make{0}(5)".format(n))
+            lines.append("fb{0} = make{0}(5)[0]".format(n))   # a twin that never saw another value of the closure
             lines.append("")
         src = "\n".join(lines) + "\n"
         self.source = src
@@ -328,9 +329,9 @@ class ExprModule:
         self.rec_log.append((pos, v))
         return v
 
-    def call(self, n: str, xv: Any, yv: Any) -> Any:
+    def call(self, n: str, xv: Any, yv: Any, twin: bool = False) -> Any:
         """Call the contracted function (drive it to completion if it is a coroutine function)."""
-        f = self.ns["f" + n]
+        f = self.ns[("fb" if twin else "f") + n]
         if not self.role.endswith("_async"):
             return f(xv, yv)
         coro = f(xv, yv)
@@ -343,6 +344,11 @@ class ExprModule:
 
     def close(self) -> None:
         linecache.cache.pop(self.filename, None)
+
+
+def _strip_location(msg: str) -> str:
+    lines = msg.split("\n")
+    return "\n".join(lines[1:]) if lines and lines[0].startswith("File ") else msg
 
 
 def parse_message(msg: str, cond_text: str) -> Optional[Dict[str, str]]:
@@ -435,6 +441,20 @@ def check_cases(res: CheckResult, prop_clauses: Dict[str, set], cases: List[dict
                     got = ("violation", str(exc))
                 except Exception as exc:  # noqa
                     got = ("exc", exc)
+                if uses_c.get(key) and got[0] == "violation":
+                    # the same violation on a twin whose closure never held another value: the identical message
+                    try:
+                        mod.call(n, xv, yv, twin=True)
+                        twin_msg = None  # type: Any
+                    except ic.ViolationError as exc:
+                        twin_msg = str(exc)
+                    except Exception as exc:  # noqa
+                        twin_msg = repr(exc)
+                    if twin_msg is not None and _strip_location(twin_msg) != _strip_location(got[1]):
+                        _viol(res, prop_clauses, "msg.depends_on_earlier_calls",
+                              "`{}` x={!r} y={!r}: the message differs after an earlier call during which the closure "
+                              "variable had another value: {!r} vs {!r}".format(text, xv, yv, got[1][-200:], twin_msg[-200:]), c)
+                        continue
                 ncalls_first = sum(1 for p in evaluated if _kind_at(tree, p) == "ident" and _completed(mod.rec_log, p))
                 if cpy[0] == "exc":
                     stats["python_raises"] += 1
